@@ -208,6 +208,12 @@ def build_model(dumps=None, hd=None, all_worker=False):
                 violations.append(dict(event=e["name"], kind=k, loc=l, held=sorted(h), guard=g, file=e["file"], line=e["line_b"]))
         for p in X.lock_problems(e["ir"]):
             violations.append(dict(event=e["name"], kind="lock", loc=p, held=[], guard="", file=e["file"], line=e["line_b"]))
+    # for every violation: the worker events it can race with in the model (conflicting access to the same location)
+    for v in violations:
+        if v["kind"] == "lock":
+            continue
+        v["partners"] = sorted(set(e["name"] for e in worker for (k, l, h) in X.accesses(e["ir"])
+                                   if l == v["loc"] and k != "atomic" and (k == "write" or v["kind"] == "write") and not (set(h) & set(v["held"]))))[:8]
     return dict(ex=ex, phases=phases, events=events, worker=worker, main=mainev, locs=locs, mtxs=mtxs, guards=guards, guard_notes=guard_notes,
                 violations=violations, unknown=list(ex.unknown) + list(dict.fromkeys(inl.unknown)), unresolved=unresolved,
                 clang_errors=ex.clang_errors, atomic=ex.atomic_globals, extract_s=round(time.time() - t0, 2), sites=st)
@@ -666,6 +672,12 @@ def tsan_pairs(ctx, res, M):
         for i, a in enumerate(wm):
             for b in wm[i:]:
                 ops.append("pair %s %s %s" % (tag, a, b))
+    # control of this very machinery: a writer paired with the unguarded main-phase reader must be reported
+    rc0, lines0, reps0, err0 = run_harness_tsan(ctx, exe, ["pair S addSuppression getUnmatchedInlineSuppressions"], "pairctl")
+    ctl = any(r["kind"] == "data race" and "getUnmatchedInlineSuppressions" in r["raw"] for r in reps0)
+    unguarded_main = any(e["method"] == "getUnmatchedInlineSuppressions" and e["phase"] == "main" and any(not h for (k, l, h) in X.accesses(e["ir"])) for e in M["main"])
+    res.oblig("tsan:pair-control", ctl or not unguarded_main, "machinery",
+              "" if ctl or not unguarded_main else "the pair stress did not make ThreadSanitizer report addSuppression || getUnmatchedInlineSuppressions: %s %s" % (lines0, err0[-300:]))
     rc, lines, reps, err = run_harness_tsan(ctx, exe, ops, "pairs")
     okrun = rc == 0 and len(lines) == len(ops) and all(l.endswith("done") for l in lines)
     res.oblig("tsan:pair-harness-ran", okrun, "machinery", "" if okrun else "rc=%s lines=%d/%d %s" % (rc, len(lines), len(ops), err[-500:]))
@@ -731,7 +743,7 @@ def run(ctx, res):
     res.extra["readonly_shared"] = listing
     res.oblig("table:worker-events-disciplined", not M["violations"], "translation",
               "worker-phase events that access a shared location without its guard (the Lean `decide` fails on the same table):\n" +
-              "\n".join("%s (%s:%d): %s of %s holding %s, guard %s" % (v["event"], v["file"], v["line"], v["kind"], v["loc"], v["held"], v["guard"]) for v in M["violations"][:20]))
+              "\n".join("%s (%s:%d): %s of %s holding %s, guard %s; can race with %s" % (v["event"], v["file"], v["line"], v["kind"], v["loc"], v["held"], v["guard"], v.get("partners", [])) for v in M["violations"][:20]))
     run_selftests(ctx, res)
     # evidence: the tables
     for e in M["events"]:
